@@ -32,7 +32,7 @@ def run(ctx: Ctx) -> int:
     ctx.bounds["bodies"] = ("31 bodies (arithmetic and bitwise operators with constants on either side, mixed int / float, comparisons and & | ^ on bools, calls of opaque and of Guppy functions, tuples, "
                             "nested tuples, tuple returns incl. a 1-tuple, unrolled Python loops, arrays: construction, element reads / stores / augmented stores, arrays lent to borrowing functions "
                             "(with element copies read before the call, with plain Python constants inside, rows of arrays of arrays, an array inside a tuple), structs, int() / float() / abs() / len(), "
-                            "equal-but-differently-typed constants, signed zeros, a traced nat next to Python int constants); x in [-3, 4], |y| <= 1000, |opaque results| <= 1000 (symbolic); for the 8 bodies with bitwise / shift / power / float arithmetic x and y are enumerated by the solver over [-3, 4] x [-4, 4]")
+                            "equal-but-differently-typed constants, signed zeros, a traced nat next to Python int constants); x in [-3, 4], |y| <= 1000, |opaque results| <= 1000 (symbolic); for the bodies with bitwise / shift / power / float arithmetic x and y are enumerated by the solver over [-3, 4] x [-4, 4]")
     ctx.crosshair(jobs)
     rep = {"unsupported": {}, "paths_outside": {}, "lowered_both": 0, "bodies": 0, "guppy_side_not_lowered": []}
     import glob
